@@ -881,6 +881,48 @@ pub(super) async fn generate_block_txs<S: StateRead>(
             }
         }
     }
+    // oracle currency pairs removed and re-added while signed vote extensions carry prices for them
+    if matches!(profile, "paths" | "mixed") && rng.gen_bool(0.3) {
+        use astria_core::{
+            oracles::price_feed::types::v2::CurrencyPair,
+            protocol::transaction::v1::action::CurrencyPairsChange,
+        };
+        use futures::TryStreamExt as _;
+
+        use crate::oracles::price_feed::oracle::state_ext::StateReadExt as _;
+        if let Some(s) = key_for(u, state, "sudo", None).await {
+            let existing: Vec<CurrencyPair> = match state.currency_pairs_with_ids().try_collect::<Vec<_>>().await {
+                Ok(v) => v.into_iter().map(|p| p.currency_pair).collect(),
+                Err(_) => vec![],
+            };
+            let fresh: Vec<CurrencyPair> = ["AAA/USD", "BBB/USD", "BTC/USD", "ETH/USD", "TIA/USD"].iter().filter_map(|p| p.parse().ok()).filter(|p| !existing.contains(p)).collect();
+            let action = if !existing.is_empty() && (fresh.is_empty() || rng.gen_bool(0.6)) {
+                let k = rng.gen_range(0..existing.len());
+                let mut set = indexmap::IndexSet::new();
+                set.insert(existing[k].clone());
+                if existing.len() > 1 && rng.gen_bool(0.3) {
+                    set.insert(existing[(k + 1) % existing.len()].clone());
+                }
+                Some((Action::CurrencyPairsChange(CurrencyPairsChange::Removal(set)), "currency_pairs:remove"))
+            } else if !fresh.is_empty() {
+                let mut set = indexmap::IndexSet::new();
+                set.insert(fresh[rng.gen_range(0..fresh.len())].clone());
+                Some((Action::CurrencyPairsChange(CurrencyPairsChange::Addition(set)), "currency_pairs:add"))
+            } else {
+                None
+            };
+            if let Some((a, intent)) = action {
+                let base = match next_nonce.get(&s) {
+                    Some(n) => *n,
+                    None => state.get_account_nonce(&u.accts[s].addr).await.unwrap_or(0),
+                };
+                if let Some(t) = build_tx(s, &u.accts[s].key, base, vec![a], intent) {
+                    next_nonce.insert(s, base + 1);
+                    out.push(t);
+                }
+            }
+        }
+    }
     // a fee schedule under which base + multiplier x size exceeds u128::MAX, and the one account that could pay u128::MAX
     if matches!(profile, "ledger" | "mixed") && rng.gen_bool(0.15) {
         let max_asset = u.assets[MAX_ASSET].clone();
